@@ -4,7 +4,7 @@ import AmaranthVerif.Driver.StmtIO
 
 open Amaranth
 
-def handlers : List (Sexp → Option String) := [handleExpr, handleAssign, handleProc]
+def handlers : List (Sexp → Option String) := [handleExpr, handleAssign, handleProc, handleDerived]
 
 def respond (line : String) : String :=
   match Sexp.parse line with
